@@ -24,8 +24,6 @@ func Load(r *rt.Runtime) (rt.Value, func()) {
 	rt.SolemnlyDeclareCompliance(
 		rt.ComplyCpuSafe|rt.ComplyMemSafe|rt.ComplyTimeSafe|rt.ComplyIoSafe,
 
-		ipairsIterator,
-		nextGoFunc,
 		r.SetEnvGoFunc(env, "assert", assert, 1, true),
 		r.SetEnvGoFunc(env, "error", errorF, 2, false),
 		r.SetEnvGoFunc(env, "getmetatable", getmetatable, 1, false),
@@ -114,4 +112,16 @@ func loadChunk(t *rt.Thread, args []rt.Value) (chunk []byte, chunkName string, e
 	}
 	t.LinearRequire(10, uint64(len(chunk)))
 	return chunk, chunkName, nil
+}
+
+func init() {
+	// These two functions are shared by all the runtimes of the process, so
+	// their compliance is declared once here rather than each time the library
+	// is loaded into a runtime (concurrent loads would race on their flags).
+	rt.SolemnlyDeclareCompliance(
+		rt.ComplyCpuSafe|rt.ComplyMemSafe|rt.ComplyTimeSafe|rt.ComplyIoSafe,
+
+		ipairsIterator,
+		nextGoFunc,
+	)
 }
